@@ -77,7 +77,7 @@ pub const PROPS: &[Prop] = &[
         quick_runs: 100_000,
         thorough_runs: 3_000_000,
         rule: "same engine; 1-3 handle clones call close() at seeded instants incl. between the two is_closed loads of one poll_signal call; oracles: is_closed sticky on every handle, consumer returns within 6 further calls, forever() ends, deadlock-after-close verdict, poll contract (Pending only if the readiness callback ran in that call and last answered false). Non-trivial: close() overlapped a consumer call. Distinct: by schedule signature.",
-        probes: &[(E_ITER_CLOSE_BETWEEN_CHECKS, "close_overlapped_consumer_call"), (E_ITER_PENDING, "poll_returned_pending"), (E_ITER_CLOSE_WHILE_BLOCKED, "close_while_consumer_blocked"), (E_ITER_YIELDS, "values_yielded")],
+        probes: &[(E_ITER_WAKER_CHANGED, "fault:stream_polled_under_a_different_waker"), (E_ITER_CLOSE_BETWEEN_CHECKS, "close_overlapped_consumer_call"), (E_ITER_PENDING, "poll_returned_pending"), (E_ITER_CLOSE_WHILE_BLOCKED, "close_while_consumer_blocked"), (E_ITER_YIELDS, "values_yielded")],
         real: ITER_REAL,
         stub: ITER_STUB,
         assumptions: &["tokio internals between two scheduling points of signal-hook code run atomically", "the async-io conformance scenario is sequential (its reactor thread is outside the simulator); its only real-time element is a 5 s bound on a wake-up"],
@@ -151,6 +151,9 @@ struct World {
     post_close_calls: u32,
     post_close_kind: u32,
     two_scanners: bool,
+    /// fault: every poll of the stream comes with a different waker (the stream moved to another
+    /// task, a combinator that wraps the waker); only the latest one must be woken
+    waker_change: bool,
 }
 
 static mut WORLD: *mut World = std::ptr::null_mut();
@@ -682,13 +685,24 @@ where
     use std::pin::Pin;
     use std::task::{Context, Poll};
     let h = st.handle();
-    let cw = std::sync::Arc::new(CountWake(std::sync::atomic::AtomicUsize::new(0)));
-    let waker = std::task::Waker::from(cw.clone());
+    let cws = [std::sync::Arc::new(CountWake(std::sync::atomic::AtomicUsize::new(0))), std::sync::Arc::new(CountWake(std::sync::atomic::AtomicUsize::new(0)))];
+    let wakers = [std::task::Waker::from(cws[0].clone()), std::task::Waker::from(cws[1].clone())];
+    let change = w().waker_change;
+    let mut npoll = 0usize;
     let _enter = rt.enter();
     loop {
         call_begin();
+        // (with the waker-change fault every poll hands over the other waker; a wake-up of the one
+        // handed to an earlier poll does not count)
+        let cur = if change { npoll % 2 } else { 0 };
+        npoll += 1;
+        let cw = &cws[cur];
+        cw.0.store(0, std::sync::atomic::Ordering::SeqCst);
+        if change {
+            sim::count(E_ITER_WAKER_CHANGED, 1);
+        }
         let r = {
-            let mut cx = Context::from_waker(&waker);
+            let mut cx = Context::from_waker(&wakers[cur]);
             Pin::new(&mut st).poll_next(&mut cx)
         };
         call_end();
@@ -763,6 +777,7 @@ fn asyncio_conformance(spec: &RunSpec) -> ! {
     let close_case = sim::work(2) == 1;
     let pre_delivery = sim::work(2) == 1;
     let exf_raw = sim::work(2) == 1;
+    w().waker_change = sim::work(2) == 1;
     sim::note(&format!("async-io adapter conformance: {} after Pending; a delivery before the first poll: {}; exfiltrator {}", if close_case { "close()" } else { "a delivery" }, pre_delivery, if exf_raw { "WithRawSiginfo" } else { "SignalOnly" }));
     let cfg = Config { prop: spec.prop.id.to_string(), ..Config::default() };
     sim::start(cfg);
@@ -774,8 +789,12 @@ fn asyncio_conformance(spec: &RunSpec) -> ! {
         let h = st.handle();
         let cw = std::sync::Arc::new(CountWake(std::sync::atomic::AtomicUsize::new(0)));
         let waker = std::task::Waker::from(cw.clone());
-        let mut poll = |st: &mut signal_hook_async_std::SignalsInfo<E>| {
-            let mut cx = Context::from_waker(&waker);
+        let cw2 = std::sync::Arc::new(CountWake(std::sync::atomic::AtomicUsize::new(0)));
+        let waker2 = std::task::Waker::from(cw2.clone());
+        let rewake = w().waker_change;
+        let use2 = std::cell::Cell::new(false);
+        let poll = |st: &mut signal_hook_async_std::SignalsInfo<E>| {
+            let mut cx = Context::from_waker(if use2.get() { &waker2 } else { &waker });
             Pin::new(st).poll_next(&mut cx)
         };
         if pre_delivery {
@@ -808,6 +827,21 @@ fn asyncio_conformance(spec: &RunSpec) -> ! {
             sim::report("C11", "closed-reported-while-open", "async-std adapter: the stream ended although the instance is open", true);
         }
         sim::mark_nontrivial();
+        if rewake {
+            // fault: the stream is polled again under a different waker before anything arrives
+            // (it moved to another task): from now on only that one has to be woken
+            use2.set(true);
+            sim::count(E_ITER_WAKER_CHANGED, 1);
+            let mut r2 = poll(&mut st);
+            while let Poll::Ready(Some(o)) = r2 {
+                record_yield(&o);
+                r2 = poll(&mut st);
+            }
+            if !matches!(r2, Poll::Pending) {
+                sim::report("C11", "closed-reported-while-open", "async-std adapter: the stream ended although the instance is open", true);
+            }
+        }
+        let cw = if rewake { cw2.clone() } else { cw };
         cw.0.store(0, std::sync::atomic::Ordering::SeqCst);
         if close_case {
             do_close(&h, "the handle");
@@ -1210,6 +1244,7 @@ pub fn run(spec: &RunSpec) -> ! {
         post_close_calls: 0,
         post_close_kind: 0,
         two_scanners: false,
+        waker_change: false,
     });
     unsafe { WORLD = Box::into_raw(world) };
     let sh = sighook_shim::shm::get();
@@ -1428,6 +1463,7 @@ pub fn run(spec: &RunSpec) -> ! {
     let with_pipe = matches!(mode, Mode::Pending | Mode::Poll);
     let mut tokio_rt: Option<std::sync::Arc<tokio::runtime::Runtime>> = None;
     let inst: Inst = if mode == Mode::Tokio {
+        w().waker_change = sim::work(2) == 0;
         let rt = {
             let _g = ShimGuard::new();
             std::sync::Arc::new(tokio::runtime::Builder::new_current_thread().enable_io().build().expect("tokio runtime"))
